@@ -2,7 +2,7 @@
   Helper lemmas about `flattenUnion`, `handleType`, `mkUnionMembers` (the model of `DUnion.__init__`).
 -/
 import J2M.Sem
-namespace J2M
+namespace J2M.C08P
 
 /-! ### flattenUnion -/
 
@@ -332,7 +332,7 @@ theorem fold_insertUniq_ne_nil (vs acc : List String) (h : acc ≠ [] ∨ vs ≠
   | cons x vs ih => exact ih _ (Or.inl (insertUniq_ne_nil x acc))
 
 /-- "something will be emitted" -/
-def UState.NE (st : UState) : Prop := st.unique ≠ [] ∨ st.lits ≠ [] ∨ st.useLit = false
+def _root_.J2M.UState.NE (st : UState) : Prop := st.unique ≠ [] ∨ st.lits ≠ [] ∨ st.useLit = false
 
 theorem handleType_lits_nonlit (st : UState) (t : Ty) (h : t.isLit = false) :
     (handleType st t).lits = st.lits := by
@@ -415,4 +415,4 @@ theorem mkUM_ne_nil (c : LitCfg) (ts : List Ty) (hne : flattenUnion ts ≠ [])
     apply fold_NE_mono
     exact handleType_NE_first _ UInv.init t (hok t (by rw [hf]; simp))
 
-end J2M
+end J2M.C08P
